@@ -56,6 +56,9 @@ CONSTANTS Shape,       \* "par2" | "par3" | "seq" | "nest" | "nestdup" | "sbr" |
           LateFlag,    \* seeded variant of runner.run: `haveOnStart = true` only after the fresh-start block (see EndR)
           KeepScope,   \* seeded variant of InitCallbacks: without handlers and globals the context is returned unchanged (see DetInit)
           ExtractFirst,\* seeded variant of runner.run: extractOption in front of the deferred start/end pairing (see Rejected)
+          NestedOnce,  \* TRUE = proposed repair (fixes/D20-nested-designation-repeated.diff): extractOption forwards a repeated nested path of a
+                       \* callbacks-only option once; FALSE = as coded: one deep copy per occurrence, the handler is attached twice inside
+          NoBreak,     \* seeded variant of initNodeCallbacks: no `break` after the first path of an option that names the node (see DChunks)
           NoRebind     \* seeded variant of manager.withRunInfo: a manager without per-call handlers is returned unchanged (see ToolInit)
 
 \* ------------------------------------------------------------------ unit tables
@@ -114,7 +117,9 @@ POrd(p) == CHOOSE i \in 1..Len(UnitSeq) : UnitSeq[i].path = p
 \* one and the reverse are different executions of that loop)
 \* Outside the universe: one option naming a graph node AND a node inside it (the handler is then inherited from the graph node
 \* and appended again for the inner node, so it fires twice there; whether that is wanted is not decided by the statement).
-DTargets == {<<p>> : p \in DPaths} \cup (IF Multi THEN {pq \in DPaths \X DPaths : ~IsPrefix(pq[1], pq[2]) /\ ~IsPrefix(pq[2], pq[1])} ELSE {})
+\* With Multi a designation list may also name the SAME path twice (lists accumulate through repeated DesignateNode /
+\* DesignateNodeWithPath calls): <<p, p>>.
+DTargets == {<<p>> : p \in DPaths} \cup (IF Multi THEN {pq \in DPaths \X DPaths : pq[1] = pq[2] \/ (~IsPrefix(pq[1], pq[2]) /\ ~IsPrefix(pq[2], pq[1]))} ELSE {})
 DSeqs == UNION {[1..k -> DTargets] : k \in 0..MaxDOpts}
 FailSet == {"none"} \cup (IF AllowFail THEN (IF Shape \in {"nest", "nestdup"} THEN {"a", "s1"} ELSE IF Shape = "nsbr" THEN {"s1"} ELSE IF Shape = "tools" THEN {"t1"} ELSE {"a"}) ELSE {})
 \* what the branch on START does:  node = selects the leaf (ordinary run) | end = selects END directly (the result is there after
@@ -143,8 +148,18 @@ UChunks(split, from) == IF split = <<>> THEN <<>>
                         ELSE <<[i \in 1..Head(split) |-> UId(from + i - 1)]>> \o UChunks(Tail(split), from + Head(split))
 \* initNodeCallbacks(key): one chunk per option, in option order, that designates the unit's path
 \* (at the top level the option itself, inside a sub-graph its deep copy with the shortened path: same handler)
-DChunks(c, id) == LET idx == SelectSeq([i \in 1..Len(c.dopts) |-> i], LAMBDA i : \E j \in 1..Len(c.dopts[i]) : c.dopts[i][j] = UR(id).path)
-                  IN [k \in 1..Len(idx) |-> <<DId(idx[k])>>]
+\*   top level: `for _, k := range opts[i].paths { if len(k.path) == 1 && k.path[0] == key { cbs = append(cbs, handler...); break } }`
+\*              -> once per option however often the list names the node (NoBreak: once per occurrence)
+\*   nested:    extractOption forwards ONE deep copy per path of length > 1 (paths = [tail]), so the nested graph sees as many
+\*              options as the list has occurrences of the path, and each of them matches its key once
+Occ(c, i, id) == Cardinality({j \in 1..Len(c.dopts[i]) : c.dopts[i][j] = UR(id).path})
+Times(c, i, id) == IF Occ(c, i, id) = 0 THEN 0
+                   ELSE IF UR(id).parent = "top" THEN (IF NoBreak THEN Occ(c, i, id) ELSE 1)
+                   ELSE IF NestedOnce /\ ~NoBreak THEN 1 ELSE Occ(c, i, id)
+RECURSIVE DChunksFrom(_, _, _)
+DChunksFrom(c, id, i) == IF i > Len(c.dopts) THEN <<>>
+                         ELSE [k \in 1..Times(c, i, id) |-> <<DId(i)>>] \o DChunksFrom(c, id, i + 1)
+DChunks(c, id) == DChunksFrom(c, id, 1)
 CaseLine(c) ==
   [ev |-> "case", id |-> "m", shape |-> Shape,
    handlers |-> [i \in 1..c.ng |-> [id |-> GId(i), kind |-> "global", paths |-> <<>>]]
